@@ -43,6 +43,7 @@ from pdfminer.pdftypes import (
     dict_value,
     int_value,
     list_value,
+    resolve1,
     str_value,
     stream_value,
     uint_value,
@@ -284,13 +285,25 @@ class PDFXRefStream(PDFBaseXRef):
             raise PDFNoValidXRef("Unexpected EOF - file corrupted?")
         if not isinstance(stream, PDFStream) or stream.get("Type") is not LITERAL_XREF:
             raise PDFNoValidXRef("Invalid PDF stream spec.")
-        size = stream["Size"]
-        index_array = stream.get("Index", (0, size))
+        size = resolve1(stream.get("Size"))
+        index_array = resolve1(stream.get("Index", (0, size)))
+        if not isinstance(index_array, (list, tuple)):
+            raise PDFNoValidXRef("Invalid /Index: %r" % (index_array,))
+        index_array = [resolve1(v) for v in index_array]
         if len(index_array) % 2 != 0:
             raise PDFSyntaxError("Invalid index number")
+        if not all(self._is_uint(v) for v in index_array):
+            raise PDFNoValidXRef("Invalid /Index (or /Size): %r" % (index_array,))
+        widths = resolve1(stream.get("W"))
+        if not isinstance(widths, (list, tuple)):
+            raise PDFNoValidXRef("Invalid /W: %r" % (widths,))
+        widths = [resolve1(v) for v in widths]
+        if len(widths) != 3 or not all(self._is_uint(v) for v in widths):
+            raise PDFNoValidXRef("Invalid /W: %r" % (widths,))
+        (self.fl1, self.fl2, self.fl3) = widths
+        if self.fl1 + self.fl2 + self.fl3 == 0:
+            raise PDFNoValidXRef("Invalid /W: entries of zero length")
         self.ranges.extend(cast(Iterator[Tuple[int, int]], choplist(2, index_array)))
-        (self.fl1, self.fl2, self.fl3) = stream["W"]
-        assert self.fl1 is not None and self.fl2 is not None and self.fl3 is not None
         self.data = stream.get_data()
         self.entlen = self.fl1 + self.fl2 + self.fl3
         self.trailer = stream.attrs
@@ -301,6 +314,10 @@ class PDFXRefStream(PDFBaseXRef):
             self.fl2,
             self.fl3,
         )
+
+    @staticmethod
+    def _is_uint(v: object) -> bool:
+        return isinstance(v, int) and not isinstance(v, bool) and v >= 0
 
     def get_trailer(self) -> Dict[str, Any]:
         return self.trailer
@@ -314,6 +331,9 @@ class PDFXRefStream(PDFBaseXRef):
                 assert self.entlen is not None
                 assert self.data is not None
                 offset = self.entlen * index
+                if offset >= len(self.data):
+                    # /Index promises more entries than the stream holds
+                    return
                 index += 1
                 ent = self.data[offset : offset + self.entlen]
                 f1 = nunpack(ent[: self.fl1], 1)
